@@ -9,7 +9,7 @@ from vp import core, gen
 
 PROP_ID = 'C10'
 LEVEL = 'exploration'
-BUDGET = {'quick': 3000, 'thorough': 80000}
+BUDGET = {'quick': 9000, 'thorough': 80000}
 RULE = ('Model-based histories on a DataStream or an Antenna (1 or 2 polarisations): Hypothesis draws sample rate, '
         'fch1, orientation, start time, seed, 0..2 noise sources, 0..2 chirps (offset up to Nyquist, drift of '
         'either sign, phase), 0..2 custom sources (real / complex closed forms) per stream and a list of 1..12 ops '
